@@ -58,8 +58,12 @@ func ArrProps(propContainer map[string]object.PanObject) map[string]object.PanOb
 							args[1].Repr()))
 				}
 
-				// NOTE: no need to copy each elem because they are immutable
-				elems := append(self.Elems, other.Elems...)
+				// NOTE: no need to copy each elem because they are immutable,
+				// but the slice itself must be fresh: append(self.Elems, ...) would
+				// write into the spare capacity of self's backing array
+				elems := make([]object.PanObject, 0, len(self.Elems)+len(other.Elems))
+				elems = append(elems, self.Elems...)
+				elems = append(elems, other.Elems...)
 				return object.NewPanArr(elems...)
 			},
 		),
